@@ -601,3 +601,5 @@ def run(chk):
               RuleAlias(chk, {"R04.1": "R09.6", "R04.2": "R09.6"}, "script_size, which the size limits and weight formulas "
                                                                    "use, equals the encoded length"), F)
     chk.guard("R09.7", "measured", check_measured, chk, F)
+    from . import ctors
+    chk.guard("R09.8", "typed-constructors", ctors.check_typed_constructors, chk, F, "R09.8")
